@@ -84,10 +84,25 @@ def lean_build(ctx, targets):
 
 
 def theorem_names(pid):
+    """fully qualified names of the theorems declared in Props/<pid>.lean"""
     src = open(os.path.join(LEAN, "NucleoVerif", "Props", f"{pid}.lean"), encoding="utf-8").read()
     src_nc = re.sub(r"/-.*?-/", "", src, flags=re.S)
     src_nc = re.sub(r"--.*", "", src_nc)
-    return re.findall(r"^theorem\s+([A-Za-z_0-9'.]+)", src_nc, re.M)
+    names = []
+    ns = []
+    for line in src_nc.splitlines():
+        m = re.match(r"^namespace\s+(\S+)", line)
+        if m:
+            ns.append(m.group(1))
+            continue
+        m = re.match(r"^end\s+(\S+)", line)
+        if m and ns and ns[-1] == m.group(1):
+            ns.pop()
+            continue
+        m = re.match(r"^(?:private\s+)?theorem\s+([A-Za-z_0-9'.]+)", line)
+        if m:
+            names.append(".".join(ns + [m.group(1)]))
+    return names
 
 
 def lean_sources_for(pid):
@@ -111,7 +126,6 @@ def audit(ctx, pid, extra_modules=()):
         f.write(f"import NucleoVerif.Props.{pid}\n")
         for m in extra_modules:
             f.write(f"import {m}\n")
-        f.write("open NucleoVerif\n")
         for n in names:
             f.write(f"#print axioms {n}\n")
     rc, out = sh(["lake", "env", "lean", path], cwd=LEAN, timeout=1800)
@@ -119,7 +133,7 @@ def audit(ctx, pid, extra_modules=()):
     used = set()
     ok_names = set()
     for m in re.finditer(r"'([^']+)' (depends on axioms: \[([^\]]*)\]|does not depend on any axioms)", out.replace("\n", " ")):
-        nm = m.group(1).split(".")[-1]
+        nm = m.group(1)
         axs = set(a.strip() for a in (m.group(3) or "").split(",") if a.strip())
         used |= axs
         badax = axs - ALLOWED_AXIOMS
@@ -130,7 +144,7 @@ def audit(ctx, pid, extra_modules=()):
     if rc != 0:
         problems.append("audit file failed to elaborate: " + out.strip()[-400:])
     for n in names:
-        if n.split(".")[-1] not in ok_names and not any(n in p for p in problems):
+        if n not in ok_names and not any(n in p for p in problems):
             problems.append(f"theorem {n}: no axiom report")
     # forbidden tokens outside comments
     for fpath in lean_sources_for(pid):
@@ -140,7 +154,7 @@ def audit(ctx, pid, extra_modules=()):
         m = FORBIDDEN.search(src_nc)
         if m:
             problems.append(f"forbidden token {m.group(0)!r} in {os.path.relpath(fpath, ROOT)}")
-    return len(names), len([n for n in names if n.split('.')[-1] in ok_names]), problems, used, names
+    return len(names), len([n for n in names if n in ok_names]), problems, used, names
 
 
 def leanchecker(ctx, pid):
